@@ -88,7 +88,13 @@ func tpTokenize(layout string) ([]tpTok, bool) {
 		case (c == 'P' && has(i, "PM")) || (c == 'p' && has(i, "pm")):
 			return nil, false
 		case c == '-' && has(i, "-07"):
-			return nil, false
+			// only the numeric zone -0700 (not -07, -07:00, -070000, -07:00:00)
+			if !has(i, "-0700") || has(i, "-070000") {
+				return nil, false
+			}
+			flush()
+			toks = append(toks, tpTok{kind: "-0700"})
+			i += 5
 		case c == 'Z' && has(i, "Z07"):
 			return nil, false
 		case (c == '.' || c == ',') && i+1 < len(layout) && (layout[i+1] == '0' || layout[i+1] == '9'):
@@ -167,7 +173,7 @@ func (g *tpGen) getnum(p int, fixed bool, field string, pre []string) []tpEdge {
 
 var tpMonths = []string{"jan", "feb", "mar", "apr", "may", "jun", "jul", "aug", "sep", "oct", "nov", "dec"}
 
-var tpFields = []string{"year", "month", "day", "hour", "min", "sec", "nsec"}
+var tpFields = []string{"year", "month", "day", "hour", "min", "sec", "nsec", "zoff"}
 
 // edges returns the transitions of one layout step from position p.
 func (g *tpGen) edges(kind string, lit byte, p int) []tpEdge {
@@ -232,6 +238,17 @@ func (g *tpGen) edges(kind string, lit byte, p int) []tpEdge {
 		out = rng(g.getnum(p, true, "min", nil), func(v string) []string { return []string{fmt.Sprintf("(bvult %s %s)", v, c32(60))} })
 	case "05":
 		out = rng(g.getnum(p, true, "sec", nil), func(v string) []string { return []string{fmt.Sprintf("(bvult %s %s)", v, c32(60))} })
+	case "-0700":
+		// sign, two digits of hours (<= 24), two of minutes (<= 60)
+		if p+5 <= g.n {
+			hh := fmt.Sprintf("(bvadd (bvmul %s %s) %s)", g.dig(p+1), c32(10), g.dig(p+2))
+			mm := fmt.Sprintf("(bvadd (bvmul %s %s) %s)", g.dig(p+3), c32(10), g.dig(p+4))
+			off := fmt.Sprintf("(bvmul (bvadd (bvmul %s %s) %s) %s)", hh, c32(60), mm, c32(60))
+			digits := []string{g.isDigit(p + 1), g.isDigit(p + 2), g.isDigit(p + 3), g.isDigit(p + 4),
+				fmt.Sprintf("(bvule %s %s)", hh, c32(24)), fmt.Sprintf("(bvule %s %s)", mm, c32(60))}
+			out = append(out, tpEdge{p + 5, append([]string{g.eq(p, '+')}, digits...), "zoff", off})
+			out = append(out, tpEdge{p + 5, append([]string{g.eq(p, '-')}, digits...), "zoff", "(bvneg " + off + ")"})
+		}
 	case "frac":
 		// after "05": a fractional second in the value is accepted although
 		// the layout has none
@@ -294,7 +311,7 @@ func tpFormula(layout string, b []string, pfx string) (defs []string, okT string
 			steps = append(steps, step{kind: "frac"})
 		}
 	}
-	cur := map[int]*tpState{0: {cond: "true", f: map[string]string{"year": c32(0), "month": c32(1), "day": c32(1), "hour": c32(0), "min": c32(0), "sec": c32(0), "nsec": c32(0)}}}
+	cur := map[int]*tpState{0: {cond: "true", f: map[string]string{"year": c32(0), "month": c32(1), "day": c32(1), "hour": c32(0), "min": c32(0), "sec": c32(0), "nsec": c32(0), "zoff": c32(0)}}}
 	for _, st := range steps {
 		type inc struct {
 			cond string
